@@ -897,13 +897,27 @@ pub fn gen_c20<W: Write>(out: &mut W, thorough: bool, seed: u64) {
 
     /* once per run: every code point of the two ranges whose lower-casing the model covers (U+0000-U+00FF,
        U+0400-U+045F) in a three-byte currency code, alone and in a pair with its own lower-cased spelling */
-    for cp in (0u32..0x100).chain(0x400..0x460) {
+    // ... and the six capitals whose lower-case form has another UTF-8 length (Kelvin, Angstrom and Ohm signs, capital
+    // sharp s, Ⱥ, Ⱦ): a three-byte code that stops being three bytes when lower-cased, and the reverse
+    for cp in (0u32..0x100).chain(0x400..0x460).chain([0x212A, 0x212B, 0x2126, 0x1E9E, 0x23A, 0x23E]) {
         let c = char::from_u32(cp).unwrap();
         let low: String = c.to_lowercase().collect();
-        let (up, dn) = if c.len_utf8() == 1 { (format!("x{}Y", c), format!("X{}y", low)) } else { (format!("{}Z", c), format!("{}z", low)) };
+        let (up, dn) = match c.len_utf8() {
+            1 => (format!("x{}Y", c), format!("X{}y", low)),
+            2 => (format!("{}Z", c), format!("{}z", low)),
+            _ => (format!("{}", c), low.clone()),
+        };
         writeln!(out, "ccy {}", hexs(&up)).unwrap();
         writeln!(out, "fxpair {} {}", hexs(&up), hexs(&dn)).unwrap();
         writeln!(out, "fxpair {} {}", hexs(&up), hexs("usd")).unwrap();
+        if cp > 0x460 {
+            // padded so that the LOWER-CASED form has three bytes
+            for pad in ["", "a", "ab"] {
+                writeln!(out, "ccy {}", hexs(&format!("{}{}", c, pad))).unwrap();
+                writeln!(out, "ccy {}", hexs(&format!("{}{}", pad, c))).unwrap();
+                writeln!(out, "fxpair {} {}", hexs(&format!("{}{}", c, pad)), hexs(&format!("{}{}", low, pad))).unwrap();
+            }
+        }
         if c.len_utf8() == 2 {
             writeln!(out, "ccy {}", hexs(&format!("q{}", c))).unwrap();
             writeln!(out, "fxpair {} {}", hexs(&format!("q{}", low)), hexs(&format!("Q{}", c))).unwrap();
